@@ -59,6 +59,7 @@ template <class E> TsmConf<E> randomTsmConf(vh::Rng& r, uint64_t seed, long maxN
     const auto bss = tbx::blockSizesFor(std::min<long>(nbLeavesMax, long(std::max(ps.size(), pt.size()))), false);
     c.blockSize = bss[r.below(bss.size())];
     if (r.coin(0.08)) c.blockSize = -1;
+    if (tbx::forcedBlockSize()) c.blockSize = tbx::forcedBlockSize();
     c.ogp = r.coin(0.5);
     c.upper = E::Space::IsPeriodic ? 1 : (r.coin(0.7) ? 2 : long(r.below(2)));
     return c;
@@ -80,7 +81,7 @@ template <int D, class TT> std::vector<Coord<D>> leafOfTgt(const TT& t, long N, 
 }
 
 // P-set on a Tsm tree: every target must hold exactly the model's count for every source (1 when not periodic)
-template <class E, class Exec> void runSetTsm(const TsmConf<E>& c, Result& res, Exec&& exec, bool& nontrivial) {
+template <class E, class Exec> void runSetTsm(const TsmConf<E>& c, Result& res, Exec&& exec, bool& nontrivial, bool checkCells = true) {
     constexpr int D = E::Cfg::Dim;
     const long Ns = long(c.src.size()), Nt = long(c.tgt.size());
     const typename E::Cfg cfg(c.geo.H, c.geo.width, c.geo.center);
@@ -110,6 +111,7 @@ template <class E, class Exec> void runSetTsm(const TsmConf<E>& c, Result& res, 
         }
     });
     res.ev("tsm-pairs-checked", Ns * Nt);
+    if (!checkCells) return;
     // cells: source multipoles = contained sources; target locals = sum over ancestors' interaction lists of source multipoles
     const long H = c.geo.H;
     std::map<std::pair<long, Coord<D>>, std::array<long, vp::PSET_N>> expM, expL;
